@@ -580,6 +580,41 @@ example : copyFrom heap4 hi lo = .ok [[1, 1, 2, 3]] ∧
     copyFrom heap4 { hi with isC := true } { lo with isC := true } = .ok [[1, 1, 1, 1]] ∧
     copyLoop heap4 hi lo [3] = .ok [[1, 1, 1, 1]] := by decide
 
+/-! ### why `zipWithInto_spec` assumes IDENTICAL shapes (`hdims`) -/
+
+/-- **zipWithInto_shape_mismatch_paths_differ.** Off the hypothesis `source.v.dims = dest.v.dims` of `zipWithInto_spec` the
+two paths of `data/arrayops.go` pair DIFFERENT elements: the contiguous fast path pairs flat positions (`dest[k] ↔ source[k]`
+of the unrolled slices), the general path pairs multi-indices (`dest[i,j] ↔ source[i,j]`). A `2×3` source `0 … 5` applied
+(`ApplyFunc1`-style, `f _ s = s`) to a contiguous `2×2` destination gives `[0,1,2,3]`; to the same `2×2` destination as a
+gapped view of a `2×3` root gives `[0,1,3,4]`. (Every caller in the repository passes arrays of equal shape.) -/
+theorem zipWithInto_shape_mismatch_paths_differ :
+    let h : Heap Int := [[9, 9, 9, 9], [9, 9, 9, 9, 9, 9], [0, 1, 2, 3, 4, 5]]
+    let src : Arr := ⟨rootView [2, 3] 0, 2, 0, 6, false⟩
+    let dContig : Arr := ⟨rootView [2, 2] 0, 0, 0, 4, false⟩
+    let dRoot : Arr := ⟨rootView [2, 3] 0, 1, 0, 6, false⟩
+    let dGap : Arr := { dRoot with v := sliceView dRoot.v [0, 0] [2, 2] none }
+    zipWithInto (fun _ s => s) h dContig src = .ok [[0, 1, 2, 3], [9, 9, 9, 9, 9, 9], [0, 1, 2, 3, 4, 5]] ∧
+    zipWithInto (fun _ s => s) h dGap src = .ok [[9, 9, 9, 9], [0, 1, 9, 3, 4, 9], [0, 1, 2, 3, 4, 5]] := by decide
+
+/-! ### why the success clause of `reshape_spec` assumes `s ≠ []` and extents `≥ 1` -/
+
+/-- **reshape_nil.** `Reshape([]int{})` of a single-element view (element count `Π [] = 1` matches) does not return an
+error value: it PANICS (index out of range in `Offsets`), on both back-ends. -/
+theorem reshape_nil {α : Type} {h : Heap α} {a : Arr} (hr : Reach a.v) (ok : ArrOK h a) (hsz : product [] = a.v.size) :
+    reshape h a [] = .error "index-out-of-range" :=
+  NdC02.reshape_nil (reach_geo hr) ok hsz
+
+example : reshape heap single [] = .error "index-out-of-range" :=
+  reshape_nil reach_single ⟨⟨_, rfl, by decide⟩, by decide, by decide, by simp [single, root]⟩ (by decide)
+
+/-! ### the integer helpers outside their specified range: Go's truncated division -/
+
+/-- `IDivMod` on a NEGATIVE `k` (outside `idivmod_rowmajor` / `idivmod_wraps`, which need `0 ≤ k`) follows Go's truncated
+`/` and `%`: digits of mixed sign, not the mathematical residues. `Increment` beyond in-bounds indices and `Offsets` on
+non-positive extents are likewise outside the specs (`increment_rowmajor` needs `InBounds`, `offsets_spec` is unconditional
+on `dims ≠ []`). -/
+example : idivmod (-5) (offsetsT [2, 3]) [2, 3] = .ok [-1, -2] ∧ unravel ((-5) % product [2, 3]) [2, 3] = [0, 1] := by decide
+
 end Ex
 
 end OW.Props.C02
